@@ -1,11 +1,15 @@
 // lockscan: a small static lock-order and guarded-by scanner for Go packages,
 // written for the Cloak verification framework (/verif). Standard library only
-// (go/ast + go/parser; no go/types).
+// (go/ast + go/parser; of go/types only the expression printer).
 //
-//	cd /verif/tools/lockscan && GOFLAGS=-mod=mod GOPROXY=off go run . -out DIR [-overlay FILE] [-v] PKGDIR...
+//	cd /verif/tools/lockscan && GOFLAGS=-mod=mod GOPROXY=off go run . -out DIR [-overlay FILE] [-v] [-atom PKGDIR,PKGDIR...] PKGDIR...
 //
 // For every package directory it writes DIR/LockGraph.v (mutexes, lock-acquisition
-// edges, errors) and DIR/Guards.v (held sets at accesses of selected variables) and
+// edges, errors) and DIR/Guards.v (held sets at accesses of selected variables), and
+// DIR/Atomicity.v (critical sections with the events inside them, sync/atomic operations,
+// uses after sync.Pool.Put, variables shared with goroutines: see atom.go) for these
+// packages and for the ones named by -atom (which do not appear in the other two files
+// and in which goto, fallthrough and local mutexes are followed instead of rejected), and
 // prints a human readable report (-v: also every method call that was not followed or
 // was resolved by the union rule). Exit status: 0 no errors, 1 analysis errors (files
 // are still written, lockscan_errors non-empty), 2 usage/IO failure; cycles do not
@@ -15,7 +19,7 @@
 //
 // Files: main.go (driver, Coq output), pkg.go (loading, declarations), types.go
 // (syntactic type inference), walk.go (per-function walker), solve.go (summaries,
-// edges, must-hold-at-entry, guards, cycles, report).
+// edges, must-hold-at-entry, guards, cycles, report), atom.go (Atomicity.v).
 //
 // WHAT IS MODELLED
 //   - Mutexes: struct fields of type [*]sync.Mutex / [*]sync.RWMutex ("T.f"), embedded
@@ -138,6 +142,7 @@ func main() {
 	flag.BoolVar(&verbose, "v", false, "also list the method calls that were not followed or resolved by the union rule")
 	out := flag.String("out", "", "output directory for LockGraph.v and Guards.v (required)")
 	ovFile := flag.String("overlay", "", "JSON overlay file {\"Replace\": {path: replacement}} (default $VERIF_EXTRA_OVERLAY)")
+	atomDirs := flag.String("atom", "", "comma separated package directories scanned for Atomicity.v only (not part of LockGraph.v / Guards.v)")
 	flag.Usage = func() {
 		fmt.Fprintln(os.Stderr, "usage: lockscan -out DIR [-overlay FILE] PKGDIR...")
 		flag.PrintDefaults()
@@ -171,8 +176,9 @@ func main() {
 
 	var pkgs []*pkg
 	seen := map[string]bool{}
-	for _, dir := range flag.Args() {
-		p, err := loadPkg(dir, overlay)
+	var atomPkgs []*pkg
+	load := func(dir string, lenient bool) *pkg {
+		p, err := loadPkg(dir, overlay, lenient)
 		if err != nil {
 			fail("%v", err)
 		}
@@ -181,7 +187,15 @@ func main() {
 		}
 		seen[p.name] = true
 		p.analyse()
-		pkgs = append(pkgs, p)
+		return p
+	}
+	for _, dir := range flag.Args() {
+		pkgs = append(pkgs, load(dir, false))
+	}
+	for _, dir := range strings.Split(*atomDirs, ",") {
+		if dir != "" {
+			atomPkgs = append(atomPkgs, load(dir, true))
+		}
 	}
 
 	nerr := 0
@@ -196,6 +210,12 @@ func main() {
 		fail("%v", err)
 	}
 	if err := os.WriteFile(filepath.Join(*out, "Guards.v"), []byte(guardsV(pkgs)), 0o644); err != nil {
+		fail("%v", err)
+	}
+	for _, p := range atomPkgs {
+		p.reportAtomOnly(os.Stdout)
+	}
+	if err := os.WriteFile(filepath.Join(*out, "Atomicity.v"), []byte(atomicityV(append(append([]*pkg{}, pkgs...), atomPkgs...))), 0o644); err != nil {
 		fail("%v", err)
 	}
 	if nerr > 0 {
